@@ -251,6 +251,11 @@ class Engine:
             elif kind == "byte":
                 st.assume(z3.And(z >= 0, z <= 255))
         self.assume_type(st, v)
+        ch = getattr(decl, "choices", {}).get(field) if decl is not None else None
+        if ch:
+            v.choices = list(ch)
+            if not self.spec_mode:
+                st.assume(z3.Or(*[z == c for c in ch]))
         rng = getattr(decl, "ranges", {}).get(field) if decl is not None else None
         if rng and not self.spec_mode:
             st.assume(z3.And(z >= rng[0], z <= rng[1]))
@@ -354,6 +359,10 @@ class Engine:
             return Val(t, v.z)
         if k == "int" and vk == "bool":
             return Val(INT, z3.If(v.z, z3.IntVal(1), z3.IntVal(0)))
+        if k == "int" and vk == "none":
+            return Val(INT, z3.IntVal(0))      # Optional[int] slot: None is modelled as 0 (both falsy; only truthiness is tested)
+        if k == "int" and vk == "str" and v.conc == "":
+            return Val(INT, z3.IntVal(0))
         if k == "bool" and vk == "int":
             return Val(BOOL, v.z != 0)
         if k == "float" and vk == "int":
